@@ -1,4 +1,5 @@
 import PyxisVerif.Model.Obs
+import PyxisVerif.Model.ParseObs
 import PyxisVerif.Spec.C03
 /-!
 # `pxmodel` – line-protocol driver of the model (PROTOCOL.md §4)
@@ -32,6 +33,8 @@ def handleCase (points : List String) (line : String) : List String :=
       points.filterMap fun pt =>
         if pt == "o2" then some (obsLine c.id "o2" c.o2)
         else if pt == "o3" then some (obsLine c.id "o3" c.o3)
+        else if pt == "o1" then some (obsLine c.id "o1" c.o1)
+        else if pt == "o1text" then some (obsLine c.id "o1text" c.o1text)
         else if pt == "spec" then some (obsLine c.id "spec" (specObs c))
         else none
 
